@@ -37,6 +37,10 @@ func orPermissive(m string) string {
 }
 
 func oracle(stream, in, outp string) {
+	if stream == "chains" {
+		chainsOracle(outp)
+		return
+	}
 	out := wire.Create(outp)
 	defer out.Close()
 	s := newSUT("istio-system")
